@@ -247,7 +247,7 @@ def run(ck, prog, tier):
     n_paths, n_ops = motion.check_precision(ck, 'C03-D5-precision', fn, all_out)
     ck.floor('calculate_lm mpmath operations', n_ops, 10)
     n_div = motion.check_float_division(ck, 'C03-D5-float-division', fn)
-    ck.floor('calculate_lm division sites', n_div, 6)
+    ck.floor('calculate_lm division sites', n_div, 2)
     # D6 wrapper
     f_w = prog.func('ebb_motion.moveTimeLM')
     ck.saw('functions', f_w.qualname + ' @ ' + f_w.loc())
